@@ -250,6 +250,7 @@ func RunWith[C any](t *testing.T, spec Spec, gen func(*rapid.T) C, check func(C,
 	rec := newRecorder(spec)
 	known := loadFindings()
 	defer rec.flush()
+	replaySub = spec.Sub
 
 	judge := func(c C) (Outcome, string) {
 		o := check(c, rec)
@@ -375,6 +376,9 @@ func RunWith[C any](t *testing.T, spec Spec, gen func(*rapid.T) C, check func(C,
 	})
 }
 
+// replaySub is the sub-check currently loading replay files (tests of a package run sequentially).
+var replaySub string
+
 func loadReplay[C any](p string) (replayFile, C, error) {
 	var rf replayFile
 	var c C
@@ -384,6 +388,10 @@ func loadReplay[C any](p string) (replayFile, C, error) {
 	}
 	if err := json.Unmarshal(b, &rf); err != nil {
 		return rf, c, err
+	}
+	if want := replaySub; want != "" && rf.Sub != "" && rf.Sub != want {
+		// a case of another sub-check: its JSON need not fit this sub-check's case type
+		return rf, c, nil
 	}
 	if err := json.Unmarshal(rf.Case, &c); err != nil {
 		return rf, c, err
